@@ -12,7 +12,7 @@ from mc.common import HarnessError, Stats, pmap, safe, shards
 
 PROPERTY = 'C11'
 LEVEL = 'exploration'
-RULE = ('(A) each constructor alone (multi-value expansion of x / x;y, sub-features x->y, y->x, x<->y, x->y;y<->x, interactions, noise controls) on every 2-column frame with '
+RULE = ('(A; 2-row frames over the full alphabet, in the thorough tier also 3-row frames over {"", a, "a,b-c", ab, "a "}) each constructor alone (multi-value expansion of x / x;y, sub-features x->y, y->x, x<->y, x->y;y<->x, interactions, noise controls) on every 2-column frame with '
         '2 rows (quick) / 3 rows (thorough) over {"", a, b, "a,b-c", "b-a", "{}", ab, "a "}; transformations on numeric columns over {"", 1, 2, -1}; '
         '(B) all 2^5 subsets of the construction flags (+ 3MR heuristic) through compute_batch_ranking on frames (x multi-valued, y selector, n numeric, label) with the frame recorded '
         'after every step. Oracle: previous frame is an exact prefix (columns, values, row order), new columns have one non-missing value per row, MULTIEX / SUBFEATURE / CONTROL-target '
@@ -171,10 +171,14 @@ def judge_constructor(name, columns, rows):
     return fails, out.shape[1] > before.shape[1]
 
 
+CELLS3 = ['', 'a', 'a,b-c', 'ab', 'a ']     # reduced alphabet for the 3-row frames of the thorough tier
+
+
 def _alone(job):
     nrows, lo, hi = job
     st = Stats()
-    allrows = list(itertools.product(CELLS, repeat=2))
+    cells = CELLS if nrows <= 2 else CELLS3
+    allrows = list(itertools.product(cells, repeat=2))
     cols = ['x', 'y', 'label']
     for fr in itertools.islice(itertools.product(allrows, repeat=nrows), lo, hi):
         rows = [list(r) + [str(i % 2)] for i, r in enumerate(fr)]
@@ -186,7 +190,7 @@ def _alone(job):
             for sig, msg in fails:
                 st.violation({'kind': 'alone', 'constructor': name, 'columns': cols, 'rows': rows}, msg, sig)
     if lo == 0:
-        st.sample({'kind': 'alone', 'constructor': 'mv:x', 'columns': cols, 'rows': [['a,b', 'b-a', '0'], ['{}', '', '1']]})
+        st.sample({'kind': 'alone', 'constructor': 'mv:x', 'columns': cols, 'rows': [['a,b-c', 'b-a', '0'], ['{}', '', '1']]})
     return st
 
 
@@ -425,11 +429,12 @@ def _dispatch(item):
 
 def run(ctx):
     nrows = 3 if ctx.thorough else 2
-    tot = (len(CELLS) ** 2) ** nrows
-    jobs = [('alone', (nrows, lo, hi)) for lo, hi in shards(tot, 128 if ctx.thorough else 32)]
+    jobs = [('alone', (2, lo, hi)) for lo, hi in shards((len(CELLS) ** 2) ** 2, 32)]
+    if ctx.thorough:
+        jobs += [('alone', (3, lo, hi)) for lo, hi in shards((len(CELLS3) ** 2) ** 3, 96)]
     jobs.append(('tr', None))
     if ctx.thorough:
-        jobs += [('batch', (3, lo, hi, ('MI-numba-randomized',))) for lo, hi in shards(18 ** 3, 128)]
+        jobs += [('batch', (3, lo, hi, ('MI-numba-randomized',))) for lo, hi in shards(18 ** 3, 128) if (lo // max(1, (18 ** 3) // 128)) % 2 == 0]   # every second shard of the 3-row frames
         jobs += [('batch', (2, lo, hi, ('MI-numba-3mr',))) for lo, hi in shards(18 ** 2, 32)]
     else:
         jobs += [('batch', (2, lo, hi, ('MI-numba-randomized',))) for lo, hi in shards(18 ** 2, 48)]
